@@ -12,6 +12,7 @@ import ErgoProofs.Lemmas.PlanShape
 import ErgoProofs.Lemmas.PropsAux
 import ErgoProofs.Lemmas.FileLog
 import ErgoProofs.Lemmas.FilesThm
+import ErgoProofs.Lemmas.StampFree
 namespace Ergo
 
 /-- claim order, prune set and compaction output do not depend on map iteration order (any permutation of the item and
@@ -96,5 +97,11 @@ theorem C12_append_calls_produce_the_appended_file (classify : Storage.Bytes →
 theorem C12_without_append_mode_earlier_bytes_are_clobbered :
     (Files.run { dir := { log := some [123, 125], tmp := none } } (Files.appendUnterminated false [49, 10])).dir.log = some [10, 125, 49, 10] :=
   Files.appendUnterminated_without_append_clobbers
+
+/-- the log — the *order of its lines* — is the only truth: the same lines carrying any other time stamps (a collaborator's clock that runs ahead,
+    a clock set back between two commands, a hand merge) replay to the same graph up to the clock readings stored in it, or fail alike -/
+theorem C12_replay_ignores_stamp_values {l l' : List Event} (h : SameLines l l') :
+    (replay l).map Graph.untimed = (replay l').map Graph.untimed :=
+  replay_stamp_free h
 
 end Ergo
